@@ -764,7 +764,7 @@ impl TypedScenario for C12Raw {
     fn budget(&self, tier: Tier) -> usize {
         match tier {
             Tier::Quick => sweep_len() + 2000,
-            Tier::Thorough => sweep_len() + 300_000,
+            Tier::Thorough => sweep_len() + 1_500_000,
         }
     }
     fn generate(&self, seed: u64, index: usize, tier: Tier) -> Plan {
